@@ -49,6 +49,8 @@ CheckState(k) ==
      /\ PathSet(ob.keys_b) = Keys(t, TRUE) \/ Say("state", k, "keys-branches")
      /\ PathSet(ob.items_keys) = Keys(t, FALSE) \/ Say("state", k, "items")
      /\ (\A j \in 1..Len(ob.vals) : ob.vals[j][1] \in DOMAIN t /\ T(ob.vals[j][2]) = Cut(t, ob.vals[j][1])) \/ Say("state", k, "values")
+     /\ (PathSet(ob.sorted_keys) = SortedKeys(t) /\ DepthSorted(ob.sorted_keys)) \/ Say("state", k, "get_sorted_keys")
+     /\ PathSet(ob.flat_keys) = Keys(t, FALSE) \/ Say("state", k, "as_flat")
      /\ T(ob.as_dict) = AsDict(t) \/ Say("state", k, "as_dict")
      /\ T(ob.n2d) = AsDict(t) \/ Say("state", k, "namespace_to_dict")
      /\ T(ob.d2n) = DictToNamespace(AsDict(t)) \/ Say("state", k, "dict_to_namespace")
